@@ -80,7 +80,7 @@ func lockClassifier(w *core.World, owner *types.Named, g guardedField) func(pkg 
 }
 
 func checkC20(r *core.Run) {
-	r.Explain = "Decided statically: (C20.guarded) for the frozen guarded-by table (meta-cache map <-> its RWMutex, hash ring map and index <-> the ring's RWMutex, transaction hooks <-> hl, session counter <-> sync/atomic) every access outside constructors and once.Do initialisers holds the lock / is atomic; package-level variables written by functions reachable from request entry points are written under a mutex, atomically or inside sync.Once; (C20.release) acquire/release pairing on every path for *sql.DB.Conn <-> Close, Prepare <-> Close, Query <-> rows.Close, with ownership transfer to a callee that closes its parameter summarised; (C20.block) channel sends outside a select cannot target an unbuffered channel. (C20.guarded, also) a method call on a package variable of a standard type documented as not goroutine-safe (rand.Rand, bytes.Buffer, strings.Builder, bufio, list) counts as a write; NOT decided: absence of races on state outside the table, scheduler-dependent lock-ups, goroutine counts — a static lockset is neither sound nor complete for 'no data race' in general; the claim is limited to the table and the rules above."
+	r.Explain = "Decided statically: (C20.guarded) for the frozen guarded-by table (meta-cache map <-> its RWMutex, hash ring map and index <-> the ring's RWMutex, transaction hooks <-> hl, session counter <-> sync/atomic) every access outside constructors and once.Do initialisers holds the lock / is atomic; package-level variables written by functions reachable from request entry points are written under a mutex, atomically or inside sync.Once; (C20.release) acquire/release pairing on every path for *sql.DB.Conn <-> Close, Prepare <-> Close, Query <-> rows.Close, with ownership transfer to a callee that closes its parameter summarised; (C20.block) channel sends outside a select cannot target an unbuffered channel. (C20.block, also) no connection is requested from the database/sql pool, directly or through callees, while a sync mutex may be held (the lookup path takes the cache lock while holding a pooled connection); (C20.guarded, also) a method call on a package variable of a standard type documented as not goroutine-safe (rand.Rand, bytes.Buffer, strings.Builder, bufio, list) counts as a write; NOT decided: absence of races on state outside the table, scheduler-dependent lock-ups, goroutine counts — a static lockset is neither sound nor complete for 'no data race' in general; the claim is limited to the table and the rules above."
 	r.Trusted = []string{"go/types, go/cfg", "sync, sync/atomic, database/sql"}
 	w := r.W
 	// ---- C20.guarded: frozen table
